@@ -1,8 +1,9 @@
 SPECIFICATION Spec
 CONSTANTS
   Focus = {1, 2, 3, 4, 5, 6, 7, 8, 9, 10}
-  MaxSteps = 2
+  MaxSteps = 3
   Kinds2 = {"set", "subset", "refill", "same"}
+  MaxInit = 6
   FreeAll = TRUE
   Emit = TRUE
 INVARIANTS InitValid OpsValid ApplyAllowed RefillIsIdentity EmitCase
